@@ -13,8 +13,12 @@ impl LineIndex {
         line_offsets.push(0);
 
         let mut is_line_only_ascii = true;
-        for (index, byte) in text.as_bytes().iter().copied().enumerate() {
-            if byte == b'\n' {
+        let bytes = text.as_bytes();
+        for (index, byte) in bytes.iter().copied().enumerate() {
+            // a line ends after `\n`, after `\r\n` and after a lone `\r`
+            let is_line_end =
+                byte == b'\n' || (byte == b'\r' && bytes.get(index + 1) != Some(&b'\n'));
+            if is_line_end {
                 line_offsets.push((index + 1) as u32);
                 line_only_ascii_vec.push(is_line_only_ascii);
                 is_line_only_ascii = true;
@@ -69,14 +73,14 @@ impl LineIndex {
         self.line_offsets.len()
     }
 
-    // get col base 0
+    // get col base 0 (in UTF-16 code units, the LSP default position encoding)
     pub fn get_col(&self, offset: TextSize, source_text: &str) -> Option<usize> {
         let (line, start_offset) = self.get_line_with_start_offset(offset)?;
         if self.is_line_only_ascii_index(line) {
             Some(usize::from(offset - start_offset))
         } else {
             let text = &source_text[usize::from(start_offset)..usize::from(offset)];
-            Some(text.chars().count())
+            Some(text.chars().map(char::len_utf16).sum())
         }
     }
 
@@ -87,7 +91,7 @@ impl LineIndex {
             Some((line, usize::from(offset - start_offset)))
         } else {
             let text = &source_text[usize::from(start_offset)..usize::from(offset)];
-            Some((line, text.chars().count()))
+            Some((line, text.chars().map(char::len_utf16).sum()))
         }
     }
 
@@ -129,12 +133,13 @@ impl LineIndex {
             let mut offset = 0;
             let mut col = col;
             for c in source_text[start_offset..end_offset].chars() {
-                if col == 0 {
+                // columns count UTF-16 code units; a column inside a surrogate pair rounds down
+                if col < c.len_utf16() {
                     break;
                 }
 
                 offset += c.len_utf8();
-                col -= 1;
+                col -= c.len_utf16();
             }
             Some(TextSize::from(offset as u32))
         }
